@@ -48,6 +48,7 @@ fn main() {
     let code = dispatch!(id, mode, tier, seed, third;
         "C01" => vh::props::c01::C01,
         "C02" => vh::props::c02::C02,
+        "C03" => vh::props::c03::C03,
         "C04" => vh::props::c04::C04,
         "C06" => vh::props::c06::C06,
         "C07" => vh::props::c07::C07,
